@@ -23,7 +23,7 @@ package compiler
 //@ func (*Compiler).adjustJumpTargets
 //@   requires c != nil
 //@   mathint
-//@   callpremust (binary.littleEndian).PutUint32 i >= 1 && topLevel(old(row(c.code)), old(off(c.code)), i - 1)
+//@   callpremust (binary.littleEndian).PutUint32 i >= 1 && topLevel(old(row(c.code)), old(off(c.code)), i - 1) && (opcode == byte(vm.OpJump) || opcode == byte(vm.OpJumpIfFalse) || opcode == byte(vm.OpJumpIfTrue)) && opcode == old(c.code[i - 1])
 //@   loop 1 invariant jumpOpcodes != nil && forall(k, byte, has(jumpOpcodes, k) == (k == byte(vm.OpJump) || k == byte(vm.OpJumpIfFalse) || k == byte(vm.OpJumpIfTrue)) && (has(jumpOpcodes, k) ==> jumpOpcodes[k]))
 //@   loop 1 invariant 0 <= i && (i < len(c.code) ==> topLevel(old(row(c.code)), old(off(c.code)), i)) && base(c.code) == old(base(c.code)) && off(c.code) == old(off(c.code)) && len(c.code) == old(len(c.code)) && forall(j, i, len(c.code), c.code[j] == old(c.code[j]))
 
